@@ -213,7 +213,8 @@ def mutate(rng, cd, n):
         c = cd.classes[cid]
         k = rng.choice(["rename-class", "remove-class", "retype-class", "rename-package", "rename-op", "remove-op", "retype-op",
                         "param", "attribute", "relationship", "visibility", "copy-op", "second-path",
-                        "association", "association", "explicit-ctor", "overload", "overload-foreign-return", "attribute-flags"])
+                        "association", "association", "explicit-ctor", "overload", "overload-foreign-return", "attribute-flags",
+                        "empty-class", "long-names"])
         if k == "rename-class":
             new = rng.choice(["C" + kj.ident(rng, "X"), "C" + kj.ident(rng, "X"), rng.choice(list(cd.classes.values())).NAME])
             old = c.NAME
@@ -233,6 +234,20 @@ def mutate(rng, cd, n):
             if nss:
                 old = rng.choice(nss)
                 rename_namespace(cd, old, rng.choice(["XNew", "XOuter::XInner", old + "Two", "A::B::C"]))
+        elif k == "empty-class":
+            # prefer an interface in the middle of a realisation chain: it keeps its parents but declares nothing itself
+            mids = [x for x in cd.classes.values() if x.PURE_VIRTUAL_INTERFACE and x.OPERATIONS]
+            tgt = rng.choice(mids) if mids and rng.random() < 0.7 else c
+            del tgt.OPERATIONS[:]
+            k += ":" + tgt.NAME
+        elif k == "long-names":
+            # identifiers and type names beyond the fixed columns of the formatting helpers
+            tail = "".join(rng.choice(["Upper", "Lower", "Limit", "Buffer", "Counter", "Extended"]) for _ in range(rng.randint(6, 12)))
+            if c.ATTRIBUTES and c.IS_STRUCT:
+                rng.choice(c.ATTRIBUTES).NAME = "m_" + tail
+            for o in c.OPERATIONS[:1]:
+                if o.PARAMETERS:
+                    o.PARAMETERS[0]["name"] = "_" + tail
         elif k == "rename-op" and c.OPERATIONS:
             rng.choice(c.OPERATIONS).NAME = rng.choice(["Run", "Stop", "Process" + str(rng.randint(0, 9))])
         elif k == "remove-op" and c.OPERATIONS:
@@ -348,6 +363,8 @@ def probe_names(label="TestClassDiagram"):
     plainattr = [c.NAME for c in cd.classes.values() if c.ATTRIBUTES and const_member_count(c) == 0
                  and not (c.IS_ENUM or c.IS_STRUCT or c.PURE_VIRTUAL_INTERFACE or c.AUTOGEN)]
     names += ["explicit-ctor:" + n for n in plainattr[:1]]
+    names += ["empty-interface:" + c.NAME for c in cd.classes.values() if c.PURE_VIRTUAL_INTERFACE and c.OPERATIONS]
+    names += ["long-member-names"]
     return names
 
 
@@ -387,6 +404,19 @@ def apply_probe(cd, probe):
     if kind == "overloads-same-return":
         add_overloads(cd, byname[arg], ("int", "int"))
         return [arg]
+    if kind == "empty-interface":
+        # the interface keeps its place in the hierarchy but declares no operation of its own any more
+        del cd.classes[byname[arg]].OPERATIONS[:]
+        return [c.NAME for c in cd.classes.values() if not c.PURE_VIRTUAL_INTERFACE]
+    if kind == "long-member-names":
+        touched = []
+        for c in cd.classes.values():
+            if not c.IS_STRUCT:      # elsewhere the diagram's own texts (drawn constructors, defaults) name the members
+                continue
+            for i, a in enumerate(c.ATTRIBUTES):
+                a.NAME = "m_%s%dUpperLimitLowerLimitExtendedCounterBufferUpperLimitLowerLimit" % (clean_name(c.NAME), i)
+                touched.append(c.NAME)
+        return sorted(set(touched))
     raise ValueError(probe)
 
 
